@@ -163,6 +163,14 @@ func (e *Engine) native(name string, f interface{}) {
 		if r, ok := fr.liftNative(fn, fv, ft, args); ok {
 			return r
 		}
+		// genuinely symbolic strings: a dedicated SMT model, if there is one
+		if sm, ok := e.symModels[name]; ok {
+			for _, a := range args {
+				if s, isSym := a.(sym); isSym && s.K == types.String && smt.LeafCount(s.T, 64) == 0 {
+					return sm(fr, fn, args)
+				}
+			}
+		}
 		in := make([]reflect.Value, len(args))
 		for i, a := range args {
 			in[i] = fr.toNative(a, ft.In(i))
